@@ -123,7 +123,20 @@ func sigText(p *packages.Package, fd *ast.FuncDecl) string {
 	b.WriteString("(")
 	field(fd.Type.Params)
 	b.WriteString(")(")
-	field(fd.Type.Results)
+	// the names of results are the function's own business (a single-exit rewrite names them); the rules look
+	// parameters up by name, results never
+	if fd.Type.Results != nil {
+		for _, f := range fd.Type.Results.List {
+			t := types.ExprString(f.Type)
+			k := len(f.Names)
+			if k == 0 {
+				k = 1
+			}
+			for i := 0; i < k; i++ {
+				b.WriteString("_ " + t + ",")
+			}
+		}
+	}
 	b.WriteString(")")
 	return b.String()
 }
